@@ -89,8 +89,10 @@ Qed.
 (* ------------------------------------------------------------------ uvarintReader *)
 Definition rdr_val (pos : nat) (bs : list N) : val := VStruct [("pos", VInt (Z.of_nat pos)); ("buf", VInts (zs bs))].
 
-Theorem ReadUvarint_is_rd_uv fuel pos (bs : list N) : Z.of_nat (List.length bs) < 4611686018427387904 ->
-  call prog std_ext fuel "uvarintReader.ReadUvarint" [rdr_val pos bs] =
+Theorem ReadUvarint_is_rd_uv_ext (ext : string -> list val -> option val)
+  (Huv : forall buf, ext "binary.Uvarint" [VInts buf] = std_ext "binary.Uvarint" [VInts buf])
+  fuel pos (bs : list N) : Z.of_nat (List.length bs) < 4611686018427387904 ->
+  call prog ext fuel "uvarintReader.ReadUvarint" [rdr_val pos bs] =
   match rd_uv (skipn pos bs) with
   | Some None => RRet (VTuple [VInt 0; VErr "io.EOF"; rdr_val pos bs])
   | None => RRet (VTuple [VInt 0; VErr "errors.New"; rdr_val pos bs])
@@ -112,7 +114,7 @@ Proof.
     { rewrite !andb_true_iff. repeat split; apply Z.leb_le; lia. }
     rewrite Hb. go_cbn.
     rewrite <- (zlen_zs bs). rewrite slice_z_tail by lia. rewrite Nat2Z.id.
-    unfold std_ext at 1. rewrite ns_zs.
+    rewrite Huv. unfold std_ext at 1. rewrite ns_zs.
     assert (Hne : skipn pos bs <> []).
     { intros E. apply (f_equal (@List.length N)) in E. rewrite skipn_length in E. cbn in E. lia. }
     unfold rd_uv. destruct (skipn pos bs) as [|b0 r0] eqn:Hs; [contradiction|].
@@ -127,8 +129,10 @@ Proof.
     + go_run. reflexivity.
 Qed.
 
-Theorem ReadByte_spec fuel pos (bs : list N) : Z.of_nat (List.length bs) < 4611686018427387904 ->
-  call prog std_ext fuel "uvarintReader.ReadByte" [rdr_val pos bs] =
+Definition ReadUvarint_is_rd_uv := ReadUvarint_is_rd_uv_ext std_ext (fun _ => eq_refl).
+
+Theorem ReadByte_spec_ext (ext : string -> list val -> option val) fuel pos (bs : list N) : Z.of_nat (List.length bs) < 4611686018427387904 ->
+  call prog ext fuel "uvarintReader.ReadByte" [rdr_val pos bs] =
   match nth_error bs pos with
   | None => RRet (VTuple [VInt 0; VErr "io.EOF"; rdr_val pos bs])
   | Some b => RRet (VTuple [VInt (Z.of_N b); VNil; rdr_val (S pos) bs])
@@ -149,6 +153,8 @@ Proof.
     rewrite map_nth. rewrite (nth_error_nth bs pos 0%N E).
     replace (Z.of_nat pos + 1) with (Z.of_nat (S pos)) by lia. reflexivity.
 Qed.
+Definition ReadByte_spec := ReadByte_spec_ext std_ext.
+
 
 (* ------------------------------------------------------------------ Bitmap *)
 (* one byte, eight bit positions: decided by running all 2048 cases in the kernel, then lifted *)
